@@ -95,6 +95,10 @@ def cfg_text(consts, spec=None, init="Init", next_="Next", invariants=(), proper
     for k, v in consts.items():
         if k == "Prefix":
             continue
+        if k == "PayLag":                       # exploration only: definition override of Base!PayLag
+            if v:
+                lines.append("  PayLag <- PayLagOn")
+            continue
         if k in ("Fee", "Thr", "KeeperRate", "Price"):
             lines.append(f"  {k} <- {v}")
         else:
